@@ -337,6 +337,7 @@ def run(c, prog):
     from . import C02
     C02.rule_twopass(core.Alias(c, "C05"), prog)     # `null` iff empty reference; forward references; dictionary defines every hash used
     C02.rule_name(core.Alias(c, "C05"), prog)
+    C02.rule_float(c, prog, R="C05.float", foreign=True)     # alternative float spellings of another writer
     common.rule_writer_total(core.Alias(c, "C05"), prog, "C02.total", "xml")     # a value the writer aborts on has no document at all
     from . import C02_type
     from . import C02_tok
